@@ -70,12 +70,13 @@ Not decided: collisions between distinct ASN.1 names after mangling; exact case-
 
     // ---------------- manglers ----------------
     let tname = tc.name.clone();
-    let manglers: Vec<&FnInfo> = m.fns.iter().filter(|f| f.module.starts_with("generator::rasn") && tok(&f.block).contains(&format!("{}.contains(", tname))).collect();
+    // a mangler is any generator fn that consults the table, however the lookup is written
+    let manglers: Vec<&FnInfo> = m.fns.iter().filter(|f| f.module.starts_with("generator::rasn") && idents_of(&f.block).iter().any(|i| *i == tname)).collect();
     ctx.floor("C16.kw/manglers-with-keyword-test", manglers.len(), 3);
     for f in &manglers {
         ctx.func(&f.key);
         ctx.oblige("C16.kw", &format!("guard:{}", f.name), true);
-        // the `if KW.contains(&ARG) { .. }` decision
+        // the `if <lookup of ARG in KW> { .. }` decision
         struct C<'a> {
             t: &'a str,
             out: Vec<syn::ExprIf>,
@@ -83,7 +84,7 @@ Not decided: collisions between distinct ASN.1 names after mangling; exact case-
         impl<'a> model::DeepCb for C<'a> {
             fn expr(&mut self, e: &syn::Expr) {
                 if let syn::Expr::If(i) = e {
-                    if tok(&i.cond).contains(&format!("{}.contains(", self.t)) {
+                    if idents_of(&i.cond).iter().any(|x| x == self.t) {
                         self.out.push(i.clone());
                     }
                 }
@@ -97,11 +98,16 @@ Not decided: collisions between distinct ASN.1 names after mangling; exact case-
         }
         let i = &c.out[0];
         let cond = tok(&i.cond);
-        if cond.starts_with('!') {
-            ctx.violate("C16.kw", &format!("guard:{}:polarity", f.name), &f.file, span_line(i), &format!("{}: the keyword test is negated", f.name));
+        // the tested spelling: the one lower-case variable of the condition
+        let cond_vars: Vec<String> = idents_of(&i.cond).into_iter().filter(|x| *x != tname && x != "Self" && x != "self" && x.chars().next().map(|c| c.is_lowercase()).unwrap_or(false))
+            .filter(|x| !cond.contains(&format!(".{}(", x)) && !cond.contains(&format!("|{}|", x)))
+            .collect::<BTreeSet<String>>().into_iter().collect();
+        if cond_vars.len() != 1 {
+            ctx.fail_closed("C16.kw", &format!("{}: cannot tell which spelling the keyword test `{}` looks at (candidates {:?})", f.name, cond, cond_vars));
+            continue;
         }
-        let arg = cond.split(".contains(").nth(1).unwrap_or("").trim_end_matches(')').trim_start_matches('&').to_string();
-        let argvar = arg.split('.').next().unwrap_or("").to_string();
+        let arg = cond_vars[0].clone();
+        let argvar = arg.clone();
         let then = tok(&i.then_branch);
         let prefixed = then.contains("\"r_\"") || then.contains("\"R_\"") || then.contains("\"R_{") || then.contains("\"r_{");
         if !prefixed {
@@ -124,26 +130,58 @@ Not decided: collisions between distinct ASN.1 names after mangling; exact case-
                     &format!("{}: the keyword test looks at `{}` but the spelling emitted on a miss is `{}`: the emitted spelling itself must be tested (case conversion can create or remove a keyword: `self` -> `Self`, `Type` -> `type`)", f.name, arg, e));
             }
         }
-        // truth table of the condition over {hit, miss}
-        for hit in [true, false] {
-            let hook = |_: &Evaluator, name: &str, _a: &[Val]| -> Option<Result<Val, String>> {
-                if name == ".contains" {
-                    return Some(Ok(Val::Bool(hit)));
+        // the lookup itself, evaluated against the table as written: true for every entry, false for other spellings —
+        // whatever the lookup is (contains, iter().any, binary_search over a table that may not be sorted, matches!)
+        {
+            let table_val = Val::List(table.iter().map(|s| Val::Str(s.clone())).collect());
+            let cr0 = const_resolver(m);
+            let tn = tname.clone();
+            let cr = move |name: &str| -> Option<Val> {
+                let last = name.rsplit("::").next().unwrap_or(name).trim();
+                if last == tn { Some(table_val.clone()) } else { cr0(name) }
+            };
+            let hook = |_: &Evaluator, name: &str, a: &[Val]| -> Option<Result<Val, String>> {
+                if name == ".binary_search" {
+                    // the textbook algorithm over the table in its written order (exact when the table is sorted)
+                    if let (Some(Val::List(items)), Some(Val::Str(x))) = (a.first(), a.get(1)) {
+                        let keys: Vec<&str> = items.iter().map(|v| match v { Val::Str(s) => s.as_str(), _ => "" }).collect();
+                        let (mut lo, mut hi) = (0usize, keys.len());
+                        while lo < hi {
+                            let mid = lo + (hi - lo) / 2;
+                            match keys[mid].cmp(x.as_str()) {
+                                std::cmp::Ordering::Equal => return Some(Ok(Val::Ctor("Ok".into(), vec![Val::int(mid as i128)], Default::default()))),
+                                std::cmp::Ordering::Less => lo = mid + 1,
+                                std::cmp::Ordering::Greater => hi = mid,
+                            }
+                        }
+                        return Some(Ok(Val::Ctor("Err".into(), vec![Val::int(lo as i128)], Default::default())));
+                    }
                 }
                 None
             };
-            let cr = const_resolver(m);
             let ev = Evaluator { consts: &cr, call_hook: &hook, inline: None };
-            let mut env = Env::new();
-            match ev.eval(&i.cond, &mut env) {
-                Ok(Val::Bool(b)) => {
-                    if b != hit {
-                        ctx.violate("C16.kw", &format!("guard:{}:condition", f.name), &f.file, span_line(i),
-                            &format!("{}: the escape condition `{}` is {} when the name {} a keyword", f.name, cond, b, if hit { "is" } else { "is not" }));
-                    }
+            let mut missed: Vec<String> = vec![];
+            let mut spurious: Vec<String> = vec![];
+            let mut failed = None;
+            let probes: Vec<(String, bool)> = table.iter().map(|k| (k.clone(), true)).chain(["zebra", "Fn", "a", "zz", "selfish", ""].iter().filter(|k| !tset.contains(**k)).map(|k| (k.to_string(), false))).collect();
+            for (k, want) in &probes {
+                let mut env = Env::new();
+                env.insert(argvar.clone(), Val::Str(k.clone()));
+                match ev.eval(&i.cond, &mut env) {
+                    Ok(Val::Bool(b)) if b == *want => {}
+                    Ok(Val::Bool(_)) => if *want { missed.push(k.clone()) } else { spurious.push(k.clone()) },
+                    Ok(o) => { failed = Some(format!("condition evaluates to {}", o.show())); break; }
+                    Err(e) => { failed = Some(e); break; }
                 }
-                Ok(o) => ctx.fail_closed("C16.kw", &format!("{}: condition evaluates to {}", f.name, o.show())),
-                Err(e) => ctx.fail_closed("C16.kw", &format!("{}: {}", f.name, e)),
+            }
+            ctx.oblige("C16.kw", &format!("lookup:{}", f.name), true);
+            if let Some(e) = failed {
+                ctx.fail_closed("C16.kw", &format!("{}: `{}`: {}", f.name, cond, e));
+            } else if !missed.is_empty() || !spurious.is_empty() {
+                ctx.violate("C16.kw", &format!("guard:{}:condition", f.name), &f.file, span_line(i),
+                    &format!("{}: the escape condition `{}` misses {} of the {} table entries ({}){}: those names are emitted unescaped", f.name, cond, missed.len(), table.len(),
+                        missed.iter().take(12).cloned().collect::<Vec<_>>().join(" "),
+                        if spurious.is_empty() { String::new() } else { format!(" and fires for the non-keywords {:?}", spurious) }));
             }
         }
         // the test must come after the conversion: the conversion statements precede the `if` in source order
@@ -180,6 +218,12 @@ Not decided: collisions between distinct ASN.1 names after mangling; exact case-
             ctx.violate("C16.ts", "to_jer_identifier", &f.file, f.line, "to_jer_identifier must map '-' to '_' and change nothing else (JER uses the ASN.1 names)");
         }
     }
+}
+
+fn idents_of<T: quote::ToTokens>(t: &T) -> Vec<String> {
+    let mut v = vec![];
+    model::collect_idents(&t.to_token_stream(), &mut v);
+    v
 }
 
 fn annotation_sites(m: &Model, ctx: &mut Ctx) {
